@@ -141,23 +141,28 @@ Definition ts_write_all (fs : list tsframe) : bytes := concat (ts_stream_packets
 (* ---- source frames through the packetizers into the writer ---- *)
 Inductive mux_result := MuxBytes (b : bytes) | MuxPanic.
 
-Fixpoint packetize_all (sps pps : bytes) (a : C09Adts.asc) (cs : list cframe) : option (list tsframe) :=
-  match cs with
+Fixpoint packetize_all (a : C09Adts.asc) (afs : list aframe) : option (list tsframe) :=
+  match afs with
   | [] => Some []
-  | c :: cs' =>
-      match packetize sps pps a c with
+  | af :: afs' =>
+      match packetize (a_sps af) (a_pps af) a (a_c af) with
       | PkPanic => None
-      | PkSkip => packetize_all sps pps a cs'
+      | PkSkip => packetize_all a afs'
       | PkFrame f =>
-          match packetize_all sps pps a cs' with
+          match packetize_all a afs' with
           | Some l => Some (f :: l)
           | None => None
           end
       end
   end.
 
-Definition mux_all (sps pps : bytes) (a : C09Adts.asc) (cs : list cframe) : mux_result :=
-  match packetize_all sps pps a cs with
+(* [sps0] [pps0]: the meta when the muxer is created; every frame is packetized with the
+   parameter sets current at that moment (h264Packetizer reads h264p.meta on every call) *)
+Definition mux_events (sps0 pps0 : bytes) (a : C09Adts.asc) (evs : list mevent) : mux_result :=
+  match packetize_all a (annotate sps0 pps0 evs) with
   | Some fs => MuxBytes (ts_write_all fs)
   | None => MuxPanic
   end.
+
+Definition mux_all (sps pps : bytes) (a : C09Adts.asc) (cs : list cframe) : mux_result :=
+  mux_events sps pps a (map EvFrame cs).
